@@ -212,6 +212,26 @@ def g_ycond(tier):
         yield mkprog(base + '/eq0', [If(B('==', o(), C(0)), one()), tail()])
 
 
+def g_for_entry(tier):
+    """loops whose entry test is decidable at compile time (constant initial value against a constant bound): the optimiser removes
+    the test; the body starts at a label that is also reached by the back edge, with other register contents. The first statement
+    of the body needs the constant the initialisation left in a register."""
+    inc = lambda n: ExprS(Inc('++', False, V(n)))
+    for (cn, cv), k0, bound in itertools.product((('vd', lambda: V('vd')), ('X', lambda: X), ('Y', lambda: Y)), (0, 1, 5), (3,)):
+        other = Y if cn == 'X' else X
+        firsts = [('st-same', lambda: A(V('vb'), C(k0))), ('reg-same', lambda: A(other, C(k0))), ('cmp-same', lambda: If(B('==', cv(), C(k0)), inc('sc'))), ('hw-same', lambda: Raw('load', C(k0))),
+                  ('st-two', lambda: Block([A(V('vb'), C(k0)), A(V('vc'), C(k0))]))]
+        n = k0 + bound
+        for fn, f in firsts:
+            base = 'w6/for-entry/%s=%d/%s' % (cn, k0, fn)
+            tail = lambda: A(V('wa'), cv(), '+=') if cn == 'vd' else A(V('sb'), cv(), '+=')
+            yield mkprog(base + '/for-ne', [For(Assign(cv(), '=', C(k0)), B('!=', cv(), C(n)), Inc('++', False, cv()), Block([f(), tail()]))])
+            yield mkprog(base + '/for-lt', [For(Assign(cv(), '=', C(k0)), B('<', cv(), C(n)), Inc('++', False, cv()), Block([f(), tail()]))])
+            yield mkprog(base + '/while-ne', [A(cv(), C(k0)), While(B('!=', cv(), C(n)), Block([f(), tail(), ExprS(Inc('++', False, cv()))]))])
+            yield mkprog(base + '/do', [A(cv(), C(k0)), DoWhile(Block([f(), tail(), ExprS(Inc('++', False, cv()))]), B('!=', cv(), C(n)))])
+            yield mkprog(base + '/for-down', [For(Assign(cv(), '=', C(n)), B('!=', cv(), C(k0)), Inc('--', False, cv()), Block([A(V('vb'), C(n)), tail()]))])
+
+
 def g_wave4(tier):
     yield from g_hwflags(tier)
     yield from g_logic_else(tier)
@@ -223,3 +243,4 @@ def g_wave4(tier):
     yield from g_jmp_label(tier)
     yield from g_sret(tier)
     yield from g_ycond(tier)
+    yield from g_for_entry(tier)
